@@ -74,22 +74,64 @@ def op_sequence(ctx: Ctx, f: Func) -> list[tuple[str, str]] | None:
     return seq
 
 
+def scaler_fields(ctx: Ctx) -> dict:
+    """Attribute names holding the scales / offsets (assigned from the constructor parameters of
+    those names) and the row scaling (the attribute linear_constraints_to_optimizer assigns)."""
+    c = ctx.repo.cls(SCALER)
+    out = {}
+    init = c.methods.get("__init__")
+    if init is not None:
+        for n in nodes_in(init, (ast.Assign, ast.AnnAssign)):
+            tg = n.targets[0] if isinstance(n, ast.Assign) else n.target
+            if isinstance(tg, ast.Attribute) and n.value is not None:
+                vt = ctx.X.at(init, n.value)
+                for role in ("scales", "offsets"):
+                    if any(a == ("param", init.qualname, role) for a in alts(vt)):
+                        out.setdefault(role, tg.attr)
+    lc = c.methods.get("linear_constraints_to_optimizer")
+    if lc is not None:
+        for n in nodes_in(lc, (ast.Assign, ast.AnnAssign)):
+            tg = n.targets[0] if isinstance(n, ast.Assign) else n.target
+            if isinstance(tg, ast.Attribute) and isinstance(tg.value, ast.Name) and tg.value.id == lc.positional[0]:
+                out["rows"] = tg.attr
+    for role in ("scales", "offsets", "rows"):
+        if role not in out:
+            raise AnalysisError(f"VariableScaler: attribute holding the {role} not found")
+    return out
+
+
 @rule(P)
 def c11_1(ctx: Ctx) -> RuleResult:
     res = RuleResult("C11.1", "TERM", "from_optimizer(to_optimizer(x)) == x: inverse elementary operations in reverse order under the same guards")
     c = ctx.repo.cls(SCALER)
+    X = ctx.X
     to, fr = c.methods.get("to_optimizer"), c.methods.get("from_optimizer")
     if to is None or fr is None:
         raise AnalysisError("VariableScaler.to_optimizer / from_optimizer not found")
-    s1, s2 = op_sequence(ctx, to), op_sequence(ctx, fr)
-    if s1 is None or s2 is None:
-        raise AnalysisError("scaler maps are not guarded sequences of elementary operations (cannot decide the inverse pair)")
-    want = [(INVERSE[op], fld) for op, fld in reversed(s1)]
-    ok = s2 == want
-    res.add(fr, fr.node, f"to_optimizer applies {s1}; from_optimizer must apply {want}", ok,
-            "" if ok else f"from_optimizer applies {s2}: mapping to the optimizer domain and back is not the identity", construct="scaler: inverse pair")
-    ok = s1 == [("-", "_offsets"), ("/", "_scales")]
-    res.add(to, to.node, "to_optimizer == (x - offsets) / scales", ok, "" if ok else f"to_optimizer applies {s1}", construct="scaler: to_optimizer")
+    F = scaler_fields(ctx)
+
+    def alts_of(m):
+        x = ("param", m.qualname, m.positional[1])
+        sc = ("attr", ("param", m.qualname, m.positional[0]), F["scales"])
+        of = ("attr", ("param", m.qualname, m.positional[0]), F["offsets"])
+        return x, sc, of, value_alts(X.return_term(m), deep=True)
+
+    x, sc, of, got = alts_of(to)
+    want_to = {x, norm(add(x, neg(of))), norm(div(x, sc)), norm(div(add(x, neg(of)), sc))}
+    ok_to = got == want_to
+    res.add(to, to.node, "to_optimizer == (x - offsets) / scales (each step only when the quantity is set)", ok_to,
+            "" if ok_to else f"to_optimizer yields {sorted(show(a, 60) for a in got)}", construct="scaler: to_optimizer")
+    x, sc, of, got = alts_of(fr)
+    want_fr = {x, norm(mul(x, sc)), norm(add(x, of)), norm(add(mul(x, sc), of))}
+    ok = got == want_fr
+    res.add(fr, fr.node, "from_optimizer == x * scales + offsets: the inverse operations of to_optimizer in reverse order", ok,
+            "" if ok else f"from_optimizer yields {sorted(show(a, 60) for a in got)}: mapping to the optimizer domain and back is not the identity", construct="scaler: inverse pair")
+    # each step is taken exactly when its quantity is set: the guards of both maps are `<field> is not None`
+    for m in (to, fr):
+        tests = [norm(X.value_at(m, n.test)) for n in nodes_in(m, (ast.If, ast.IfExp))]
+        sp = ("param", m.qualname, m.positional[0])
+        okg = all(t[0] == "cmp" and t[1] in ("is", "is not") and t[3] == ("const", None) and t[2] in (("attr", sp, F["scales"]), ("attr", sp, F["offsets"])) for t in tests) and len(tests) >= 2
+        res.add(m, m.node, "a step is applied iff its quantity (scales / offsets) is not None", okg, "" if okg else f"guards are {[show(t, 50) for t in tests]}", construct=f"scaler: guards of {m.name}")
     return res
 
 
@@ -102,8 +144,11 @@ def c11_2(ctx: Ctx) -> RuleResult:
     def P_(m, i):
         return ("param", m.qualname, m.positional[i])
 
+    F = scaler_fields(ctx)
+    FN = {"_scales": F["scales"], "_offsets": F["offsets"], "_equation_scaling": F["rows"]}
+
     def self_attr(m, name):
-        return ("attr", ("param", m.qualname, m.positional[0]), name)
+        return ("attr", ("param", m.qualname, m.positional[0]), FN.get(name, name))
 
     m = c.methods.get("magnitudes_to_optimizer")
     if m is not None:
@@ -133,7 +178,7 @@ def c11_2(ctx: Ctx) -> RuleResult:
         if ok:
             coef, l2, u2 = rt[1]
             # coefficients: (A*s or A) / eq[:, newaxis]
-            eq_store = [n for n in nodes_in(m, ast.Assign) if any(isinstance(t, ast.Attribute) and t.attr == "_equation_scaling" for t in n.targets)]
+            eq_store = [n for n in nodes_in(m, ast.Assign) if any(isinstance(t, ast.Attribute) and t.attr == F["rows"] for t in n.targets)]
             eq_ok = False
             if eq_store:
                 et = norm(X.at(m, eq_store[0].value))
@@ -144,7 +189,7 @@ def c11_2(ctx: Ctx) -> RuleResult:
             nc = norm(coef)
             mc = match(nc, div(V("num"), V("den")))
             def is_rowscale(d):
-                return contains(d, lambda s: (s[0] == "attr" and s[2] == "_equation_scaling") or (eq_store and s == et))
+                return contains(d, lambda s: (s[0] == "attr" and s[2] == F["rows"]) or (eq_store and s == et))
 
             if ok and not (mc is not None and {norm(a) for a in alts(mc["num"])} == {norm(mul(A, sc)), A} and is_rowscale(mc["den"])):
                 ok, why = False, f"coefficients are `{show(coef, 100)}`, not (A*s) / row_scale"
